@@ -9,6 +9,7 @@ mod pools;
 mod psetblind;
 mod psetbuild;
 mod psetcodec;
+mod psetmerge;
 mod psetview;
 mod scalar;
 mod sha256c;
@@ -67,6 +68,8 @@ fn main() {
         ("psetcodec", "subsets") => psetcodec::subsets(rest, &mut out),
         ("psetcodec", "edits") => psetcodec::edits(rest, &mut out),
         ("psetcodec", "record") => psetcodec::record(rest, &mut out),
+        ("psetmerge", "replay") => psetmerge::replay(rest, &mut out),
+        ("psetmerge", "keysources") => psetmerge::keysources(rest, &mut out),
         ("dynafed", "record") => dynafed::record(rest, &mut out),
         (m, c) => {
             eprintln!("unknown command {} {}", m, c);
